@@ -320,7 +320,63 @@ int main()
         "getValue_returns_the_value_of_the_last_parameter_with_that_name": "IMP(__verif_exc == 0, is_last_value(&RET, $0, $1))"}, **acc)
     W.fn("pu_hasParam", pre_call=upre() + ush("o_@1", "b", 2), requires=UREQ + ["$1->n <= 2"], assigns=["__verif_exc"], ensures={
         "hasParam_iff_some_parameter_has_that_name": "__verif_exc == 0 && RET == (last_param($0, $1) >= 0)"}, **acc)
-    return [U, S, F, T, W]
+    # ---- ArgumentList / ArgumentsParser::parseAndRemove: BOUNDED exact checks (at most 4 arguments of at most 2 characters)
+    AN, AS = 4, 2
+    VS = "std_vector_std_basic_string_char"
+    ahelp = """
+%(VS)s g_old;    /* ghost: the argument list on entry */
+static _Bool s_eq(std_basic_string_char *a, std_basic_string_char *b) { unsigned long i; if (a->n != b->n) return 0; for (i = 0; i < a->n && i < %(SC)d; i++) if (a->b[i] != b->b[i]) return 0; return 1; }
+static _Bool v_eq(%(VS)s *a, %(VS)s *b) { unsigned long k; if (a->n != b->n) return 0; for (k = 0; k < a->n && k < %(VC)d; k++) if (!s_eq(&a->b[k], &b->b[k])) return 0; return 1; }
+/* exactly the arguments outside [where, where+howMany) remain, in their original order */
+static _Bool removed_ok(%(VS)s *old, %(VS)s *now, long where, long howMany)
+{
+  unsigned long k, j = 0;
+  for (k = 0; k < old->n && k < %(VC)d; k++) { if ((long)k >= where && (long)k < where + howMany) continue; if (j >= now->n || !s_eq(&old->b[k], &now->b[j])) return 0; j++; }
+  return j == now->n;
+}
+/* interface stub for the pure virtual ArgumentsParser::tryConsume: an argument starting with 'x' is consumed alone, one starting
+ * with 'y' is consumed together with its successor (when there is one), everything else is not recognised */
+static int consume_rule(%(VS)s *v, unsigned long k) { unsigned long q; for (q = 0; q < %(VC)d; q++) if (q == k && q < v->n) { if (v->b[q].n > 0 && v->b[q].b[0] == 'x') return 1; if (v->b[q].n > 0 && v->b[q].b[0] == 'y' && q + 1 < v->n) return 2; } return 0; }
+unsigned g_try_calls;
+int tryConsume_stub(ArgumentsParser *self, ArgumentList *argList, int argID) { g_try_calls++; __CPROVER_assert(argID >= 0 && (unsigned long)argID < argList->arg.n, "tryConsume is asked about an argument that exists"); return consume_rule(&argList->arg, (unsigned long)argID); }
+/* what must remain: the unconsumed arguments of the ORIGINAL list, in order */
+static _Bool parsed_ok(%(VS)s *old, %(VS)s *now)
+{
+  unsigned long k = 0, j = 0, q;
+  for (q = 0; q < %(VC)d; q++) { if (k >= old->n) break; int c = consume_rule(old, k); if (c) { k += (unsigned long)c; continue; } if (j >= now->n || !s_eq(&old->b[k < %(VC)d ? k : 0], &now->b[j])) return 0; j++; k++; }
+  return j == now->n;
+}
+""" % dict(VS=VS, SC=AS + 2, VC=AN + 1)
+    A = Unit("c18_arglist", "units/c18_arglist.cpp", helpers=ahelp, opts=dict(tracked_vec=True, tracked_str=True, bounded_str=AS + 2, bounded_vec=AN + 1,
+             virtual_models={"rkcommon::utility::ArgumentsParser::tryConsume": "tryConsume_stub"}, stub_bodies=["tryConsume_stub"]))
+    A.stub("ArgumentsParser::tryConsume", "interface stub for the pure virtual: consumption decided by the first character of the argument ('x': itself, 'y': itself and its successor); asserts the index it is asked about exists")
+    def apre(o):
+        t = "  unsigned long in_n = nondet_ulong(); __CPROVER_assume(in_n <= %d); %s.arg.n = in_n; %s.arg.cap = %d;\n" % (AN, o, o, AN + 1)
+        for k in range(AN):
+            t += "  { unsigned long in_l%d = nondet_ulong(); __CPROVER_assume(in_l%d <= %d); %s.arg.b[%d].n = in_l%d; %s.arg.b[%d].cap = %d; char in_c%d0 = nondet_char(), in_c%d1 = nondet_char(); %s.arg.b[%d].b[0] = in_c%d0; %s.arg.b[%d].b[1] = in_c%d1; }\n" % (
+                k, k, AS, o, k, k, o, k, AS + 2, k, k, o, k, k, o, k, k)
+        return t + "  g_old = %s.arg; g_try_calls = 0;\n" % o
+    AREQ = ["$0->arg.n <= %d" % AN, "v_eq(&g_old, &$0->arg)", "__verif_exc == 0"] + ["$0->arg.b[%d].n <= %d" % (k, AS) for k in range(AN)]
+    acc = dict(unwind=AN + 4, timeout=600, solver=["--sat-solver", "cadical"])
+    A.fn("al_size", pre_call=apre("o_@0"), requires=AREQ, assigns=[], ensures={"size_is_the_number_of_arguments_left": "RET == (int)$0->arg.n"}, **acc)
+    A.fn("al_empty", pre_call=apre("o_@0"), requires=AREQ, assigns=[], ensures={"empty_iff_no_arguments_left": "RET == ($0->arg.n == 0)"}, **acc)
+    A.fn("al_index", pre_call=apre("o_@0"), requires=AREQ, assigns=["__verif_exc"], ensures={
+        "index_returns_a_copy_of_argument_i_or_throws_out_of_range": "($1 >= 0 && (unsigned long)$1 < $0->arg.n) ? (__verif_exc == 0 && s_eq(&RET, &g_old.b[$1 >= 0 && $1 < %d ? $1 : 0])) : (__verif_exc == EXC_std_out_of_range)" % (AN + 1),
+        "list_unchanged": "v_eq(&g_old, &$0->arg)"}, **acc)
+    A.fn("al_remove", pre_call=apre("o_@0"), requires=AREQ + ["$1 >= 0 && $2 >= 0 && (unsigned long)$1 + (unsigned long)$2 <= $0->arg.n"], assigns=["$0->arg", "__verif_exc"], ensures={
+        "remove_keeps_exactly_the_other_arguments_in_order": "__verif_exc == 0 && removed_ok(&g_old, &$0->arg, $1, $2)"}, **acc)
+    A.fn("ap_parseAndRemove", pre_call=apre("o_@1"), requires=[r.replace("$0", "$1") for r in AREQ] + ["g_try_calls == 0"], assigns=["$1->arg", "g_try_calls", "__verif_exc"], inline=["al_remove", "al_size"], noalias=True, ensures={
+        "parseAndRemove_keeps_exactly_the_unconsumed_arguments_in_order": "__verif_exc == 0 && parsed_ok(&g_old, &$1->arg)"}, **acc)
+    # argv: one NUL-terminated buffer per entry (separate one-dimensional arrays, terminator written at a concrete position)
+    avpre = ("  __CPROVER_assume(in_ac >= 0 && in_ac <= %d);\n  static char *the_av[%d];\n" % (AN + 1, AN + 1)
+             + "".join("  static char the_buf%d[3]; { unsigned long l = nondet_ulong(); __CPROVER_assume(l <= 2); char c0 = nondet_char(), c1 = nondet_char(); __CPROVER_assume(c0 != 0 && c1 != 0);"
+                       " the_buf%d[0] = c0; the_buf%d[1] = c1; the_buf%d[2] = 0; if (l == 0) the_buf%d[0] = 0; if (l == 1) the_buf%d[1] = 0; the_av[%d] = the_buf%d; }\n" % (k, k, k, k, k, k, k, k) for k in range(AN + 1))
+             + "  p_av = the_av;\n")
+    A.fn("al_ctor", pre_call=avpre, requires=["$1 >= 0 && $1 <= %d" % (AN + 1), "__verif_exc == 0"], assigns=["*$0", "__verif_exc"], noalias=True, ptr_requires=False, post_call="""
+  { unsigned long k; __CPROVER_assert(o_self.arg.n == (in_ac > 0 ? (unsigned long)in_ac - 1 : 0ul), "POST one argument per argv entry after the program name");
+    for (k = 0; k + 1 < (unsigned long)in_ac && k < %d; k++) { __CPROVER_assert(std_basic_string_char_eq_cstr(&o_self.arg.b[k], the_av[k + 1]), "POST argument k is argv[k+1]"); } }
+""" % AN, ensures={"constructor_never_throws": "__verif_exc == 0"}, **acc)
+    return [U, S, F, T, W, A]
     reset = "  g_calls = 0; g_kind = 0; g_suffix = 0;\n"
     INR = "(dabs($0) >= 1e-15 && dabs($0) < 1e21)"
     U.fn("x_prettyDouble", pre_call=reset, requires=["g_calls == 0", "__verif_exc == 0"], assigns=GA + ["__verif_exc"], solver=["--sat-solver", "cadical"], timeout=900, ensures={
@@ -332,10 +388,10 @@ int main()
 
 META = dict(
     level="other",
-    level_text="PARTIAL coverage of the statement; items (4), (5) and (6) are BOUNDED exact checks. (4) FileName: the string constructor, path, base, ext, name, dropExt, setExt, addExt, operator+ and == are extracted and checked with CBMC (bounded unwinding) against specification functions written from the property (include/c18_filename_spec.h: dot and separator of the LAST component, normalisation of separators) for every name of at most 6 characters and every extension / right operand of at most 3 (8 / 4 thorough), arbitrary bytes. (5) tokenize and split(delimiter set, keepDelim) are checked the same way against 'exactly the maximal runs of non-delimiter characters, in order, one-character tokens included' for every string of at most 5 characters (7 thorough) and every delimiter (set of at most 2). (6) PseudoURL: the constructor is checked the same way against a specification function written from the documented format <type>://<file>[:name=value]* (first '://' ends the type, ':'-separated non-empty components, first '=' splits name from value) for every input of at most 7 characters (9 thorough); getType/getFileName return the parsed parts, getValue returns the value of the LAST parameter with the name and throws std::runtime_error exactly when there is none, hasParam is existence (parsed states with at most 3 parameters of at most 2+2 characters). (1) removeArgs is extracted from /repo and proved by CBMC (function contract + loop contract, any argc): the count drops by howMany, arguments before `where` are untouched and every later argument moves down by howMany in order (ghost positions). (2) prettyDouble and prettyNumber are extracted and decided by the math back end (z3 over the reals, float literals at their exact binary32 values, snprintf as a recording interface model): for every magnitude in [1e-15, 1e21) (prettyNumber: every size_t) the mantissa handed to the formatter lies in [0.95, 1000.05) -- i.e. prints as 1.0 .. 1000.0 -- and mantissa x 10^(suffix) equals the input within 1e-6 relative; plain numbers are printed unscaled. (3) longestBeginningMatch and beginsWith are extracted and proved by CBMC on a value-tracking std::string model for strings of ANY length up to 2^40: the result of longestBeginningMatch is a common prefix (ghost position), is the longest one, and beginsWith is true only for prefixes and true for every prefix; the same two functions are also checked EXACTLY (full prefix relation, exact common-prefix length) for strings of at most 4 characters with bounded unwinding, which yields natively replayable counterexamples.",
-    level_note="NOT covered (unverified): split on a single character (std::getline on a stringstream), lowerCase/upperCase, FileName::operator-/canonical/homeFolder, ArgumentList/ArgumentsParser::parseAndRemove. The FileName and tokenize/split checks are BOUNDED (string lengths above; std::string and std::vector are bounded CODE models with inline storage, loops unwound with unwinding assertions) -- not proofs for longer strings. Floating point is treated as real arithmetic in (2) (rounding of the division and of %.1f is not modelled). std::string is a value-tracking MODEL; std::mismatch/std::equal/std::min are reference models; the string range constructor is an assumed contract instantiated at ghost positions. removeArgs is proved under its natural precondition 0 <= where, 0 <= howMany, where + howMany <= ac.",
+    level_text="PARTIAL coverage of the statement; items (4), (5), (6) and (7) are BOUNDED exact checks. (4) FileName: the string constructor, path, base, ext, name, dropExt, setExt, addExt, operator+ and == are extracted and checked with CBMC (bounded unwinding) against specification functions written from the property (include/c18_filename_spec.h: dot and separator of the LAST component, normalisation of separators) for every name of at most 6 characters and every extension / right operand of at most 3 (8 / 4 thorough), arbitrary bytes. (5) tokenize and split(delimiter set, keepDelim) are checked the same way against 'exactly the maximal runs of non-delimiter characters, in order, one-character tokens included' for every string of at most 5 characters (7 thorough) and every delimiter (set of at most 2). (6) PseudoURL: the constructor is checked the same way against a specification function written from the documented format <type>://<file>[:name=value]* (first '://' ends the type, ':'-separated non-empty components, first '=' splits name from value) for every input of at most 7 characters (9 thorough); getType/getFileName return the parsed parts, getValue returns the value of the LAST parameter with the name and throws std::runtime_error exactly when there is none, hasParam is existence (parsed states with at most 3 parameters of at most 2+2 characters). (7) ArgumentList: the (argc, argv) constructor stores argv[1..] in order, operator[] returns a copy of argument i or throws std::out_of_range, size/empty, remove(where, howMany) keeps exactly the other arguments in order, and ArgumentsParser::parseAndRemove -- against an interface stub of the pure virtual tryConsume that consumes by the argument's first character -- keeps exactly the unconsumed arguments of the original list in order (lists of at most 4 arguments of at most 2 characters). (1) removeArgs is extracted from /repo and proved by CBMC (function contract + loop contract, any argc): the count drops by howMany, arguments before `where` are untouched and every later argument moves down by howMany in order (ghost positions). (2) prettyDouble and prettyNumber are extracted and decided by the math back end (z3 over the reals, float literals at their exact binary32 values, snprintf as a recording interface model): for every magnitude in [1e-15, 1e21) (prettyNumber: every size_t) the mantissa handed to the formatter lies in [0.95, 1000.05) -- i.e. prints as 1.0 .. 1000.0 -- and mantissa x 10^(suffix) equals the input within 1e-6 relative; plain numbers are printed unscaled. (3) longestBeginningMatch and beginsWith are extracted and proved by CBMC on a value-tracking std::string model for strings of ANY length up to 2^40: the result of longestBeginningMatch is a common prefix (ghost position), is the longest one, and beginsWith is true only for prefixes and true for every prefix; the same two functions are also checked EXACTLY (full prefix relation, exact common-prefix length) for strings of at most 4 characters with bounded unwinding, which yields natively replayable counterexamples.",
+    level_note="NOT covered (unverified): split on a single character (std::getline on a stringstream), lowerCase/upperCase, FileName::operator-/canonical/homeFolder. The FileName and tokenize/split checks are BOUNDED (string lengths above; std::string and std::vector are bounded CODE models with inline storage, loops unwound with unwinding assertions) -- not proofs for longer strings. Floating point is treated as real arithmetic in (2) (rounding of the division and of %.1f is not modelled). std::string is a value-tracking MODEL; std::mismatch/std::equal/std::min are reference models; the string range constructor is an assumed contract instantiated at ghost positions. removeArgs is proved under its natural precondition 0 <= where, 0 <= howMany, where + howMany <= ac.",
     explanation="mixed: CBMC function/loop contracts (removeArgs, prefix helpers), z3 real arithmetic VCs (number formatting), bounded exact variants for replay",
     assumptions=["bounded std::string / std::vector code models (FileName, tokenize, split)", "snprintf recording interface model", "floating point treated as real arithmetic (prettyDouble/prettyNumber)", "std::string value-tracking model; std::mismatch/std::equal/std::min reference models", "string range constructor: assumed contract at ghost positions", "strings shorter than 2^40", "allocation never fails"],
-    bounded=["FileName operations: names of at most 6 characters, extensions / right operands of at most 3 (8 / 4 thorough), unwind capacity+2", "tokenize / split(set): strings of at most 5 characters (7 thorough), delimiter sets of at most 2 characters, unwind capacity+2", "PseudoURL: constructor inputs of at most 7 characters (9 thorough); accessors on at most 3 parameters with names/values of at most 2 characters", "s_beginsWith#short, s_longestBeginningMatch#short: strings of at most 4 characters, unwind 6 (exact specification; the unbounded variants carry the proof)"],
-    unverified=["split(string, char) via getline", "lowerCase/upperCase", "FileName::operator- / canonical / homeFolder", "ArgumentList / parseAndRemove", "decimal rendering of %.1f"],
+    bounded=["FileName operations: names of at most 6 characters, extensions / right operands of at most 3 (8 / 4 thorough), unwind capacity+2", "tokenize / split(set): strings of at most 5 characters (7 thorough), delimiter sets of at most 2 characters, unwind capacity+2", "ArgumentList / parseAndRemove: at most 4 arguments of at most 2 characters", "PseudoURL: constructor inputs of at most 7 characters (9 thorough); accessors on at most 3 parameters with names/values of at most 2 characters", "s_beginsWith#short, s_longestBeginningMatch#short: strings of at most 4 characters, unwind 6 (exact specification; the unbounded variants carry the proof)"],
+    unverified=["split(string, char) via getline", "lowerCase/upperCase", "FileName::operator- / canonical / homeFolder", "decimal rendering of %.1f"],
 )
